@@ -48,6 +48,9 @@ REG = {
         dict(name='c08::fr::modulus_literal', tier='quick', t=600),
         dict(name='c08::fq_from_repr_acceptance', tier='quick', t=1800, stubbing=True),
         dict(name='c08::fr_from_repr_acceptance', tier='quick', t=1800, stubbing=True),
+        # users of the hard-coded constants 2^256 (Fq) and 2^192 (Fr): the reductions hi*2^k + lo for all 64/48-byte blocks (shared with C13)
+        dict(name='c13::fq_from_okm', tier='quick', t=2400, stubbing=True),
+        dict(name='c13::fr_from_okm', tier='quick', t=2400, stubbing=True),
     ],
     'c04': [
         dict(name='c04::g1_uncompressed', tier='quick', t=800, stubbing=True),
